@@ -129,7 +129,8 @@ FLOORS = {
         "Q1": 1,
         "W1": 2,
         "W2": 204,
-        "F1": 1
+        "F1": 1,
+        "Q5": 15
     },
     "C20": {
         "B1": 3,
@@ -531,6 +532,8 @@ def c18(prog, rep):
 def c20(prog, rep):
     from . import configrules as CR
     CR.rule_c20(prog, rep)
+    from . import dimrules as DM_
+    DM_.rule_wid3(prog, rep, ['src/extensions/qaconf.c', 'src/extensions/qconfig.c'], quantity=('size', 'argc', 'num', 'count', 'len', 'cnt'))
     CR.rule_scan_abandon(prog, rep)
     CR.rule_argflag_shift(prog, rep)
     CR.rule_lineno_reset(prog, rep)
@@ -744,6 +747,8 @@ def c19(prog, rep):
     IX.rule_q1(prog, rep)
     IX.rule_q2(prog, rep)
     C.rule_m1(prog, rep, ['src/utilities/qstring.c'])
+    from . import bitlaws as BL
+    BL.rule_codec_purity(prog, rep, rid='Q5', unit='src/utilities/qstring.c', what='string functions')
     from . import strrules as SR
     SR.rule_trimset(prog, rep)
     SR.rule_casemap(prog, rep)
